@@ -267,3 +267,215 @@ def s01b_pos_len_iterators(ctx):
 def _store_is_self_field(pl, name):
     """self passed by value (`mut self`): place is _1.<name>"""
     return pl['l'] == 1 and len(pl['p']) == 1 and pl['p'][0]['p'] == 'field' and pl['p'][0]['name'] == name
+
+
+def s01c_single_slot_mapping(ctx):
+    """Every observer that takes a logical index obtains its ring slot from the one mapping function."""
+    f = ctx.facts('default')
+    m = Model(f)
+    r = RuleResult('S01c', 'Window::get and Index<PeriodType>::index both obtain the ring slot from Window::slice_index applied to their own '
+                           'index parameter (one index->slot mapping for all indexed observers)')
+    slot_fn = 'core::window::Window::<T>::slice_index'
+    if f.generic_body(slot_fn) is None:
+        raise Broken('anchor %s not found' % slot_fn)
+    observers = []
+    gb = f.generic_body('core::window::Window::<T>::get')
+    if gb:
+        observers.append(('get', Body(gb)))
+    for i in f.impls:
+        if i['trait'] == 'std::ops::Index' and i['self_tyj'].get('def') == 'core::window::Window':
+            b = m.body(m.impl_fn_path(i, 'index'), prefer_mono=False)
+            if b:
+                observers.append(('index', b))
+    for name, b in observers:
+        key = 'Window|%s' % name
+        r.inst(key)
+        calls = [(bi, t) for bi, t in b.calls() if (callee_def_(t) or '') == slot_fn]
+        if len(calls) != 1:
+            r.violate(key + '|slot-mapping-bypassed', 'Window::%s does not compute its slot through slice_index (%d calls): indexed observers may disagree '
+                      'about which element a logical index denotes' % (name, len(calls)), b.file, b.line)
+            continue
+        bi, t = calls[0]
+        a1 = _strip(b.tree_of_operand(t['args'][1]))
+        if not (a1[0] == 'arg' and a1[1] == 2):
+            r.violate(key + '|slot-of-other-index', 'Window::%s maps %s instead of its own index parameter' % (name, tree_str(a1)[:50]), b.file, b.term_line(bi))
+            continue
+        # the buffer must be indexed with the mapped slot: some later use of buf takes a value derived from the call
+        used = False
+        for bj, t2 in b.calls():
+            if t2['callee'].get('name') in ('get', 'get_unchecked', 'index') and bj != bi:
+                for a in t2['args'][1:]:
+                    tr = b.tree_of_operand(a)
+                    if any(x[0] == 'call' and x[3] == bi for x in walk_tree(tr)):
+                        used = True
+        for bj in range(b.n):
+            for s in b.blocks[bj]['stmts']:
+                if s['s'] == 'assign' and s['rv']['r'] in ('ref', 'use'):
+                    pl = s['rv'].get('pl') or (s['rv'].get('a') or {}).get('pl')
+                    if pl and any(e['p'] == 'index' for e in pl['p']):
+                        for e in pl['p']:
+                            if e['p'] == 'index':
+                                tr = b.tree_of_local(e['local'])
+                                if any(x[0] == 'call' and x[3] == bi for x in walk_tree(tr)):
+                                    used = True
+        if not used:
+            r.violate(key + '|slot-unused', 'Window::%s calls slice_index but does not index the buffer with its result' % name, b.file, b.term_line(bi))
+        else:
+            r.sample({'observer': 'Window::' + name, 'slot': 'slice_index(own index) -> buffer access'})
+    r.floor('indexed observers', 2, len(observers))
+    return r
+
+
+def callee_def_(t):
+    from mir import callee_def
+    return callee_def(t['callee'])
+
+
+# ---------------------------------------------------------------------------------------
+# S03: constructors of a type agree on the state they derive from its length
+
+def _agg_fields(b, adt_path):
+    """[(field -> tree)] for every struct literal of adt_path built in body b"""
+    out = []
+    for bi, si, s in b.stmts():
+        if s['s'] == 'assign' and s['rv']['r'] == 'agg' and s['rv']['kind'] == 'adt' and s['rv']['def'] == adt_path:
+            t = b.tree_of_rvalue(s['rv'])
+            out.append((dict(zip(t[4], t[3])), s['sp']['l']))
+    return out
+
+
+def _subst(t, pat, token):
+    """replace every occurrence of subtree `pat` (modulo refs/derefs/lossless int casts and call sites) by token"""
+    n = _canon(t)
+    p = _canon(pat)
+    def go(x):
+        if x == p:
+            return token
+        if isinstance(x, tuple):
+            return tuple(go(y) for y in x)
+        return x
+    return go(n)
+
+
+def _canon(t):
+    if not isinstance(t, tuple):
+        return t
+    if t and t[0] in ('ref', 'deref'):
+        return _canon(t[1])
+    if t and t[0] == 'cast' and t[1] == 'IntToInt':
+        return _canon(t[2])
+    if t and t[0] == 'call':
+        return ('call', t[4], tuple(_canon(a) for a in t[2]))
+    if t and t[0] == 'local':
+        return ('local', t[1])
+    if t and t[0] == 'arg':
+        return ('arg', t[1])
+    return tuple(_canon(x) for x in t)
+
+
+def s03_sibling_constructors(ctx):
+    f = ctx.facts('default')
+    m = Model(f)
+    r = RuleResult('S03', 'every constructor of Window and of SMM (including the hand-written Deserialize) derives the non-serialized state '
+                          'from the length with the same expression')
+    # ---- Window: s_1 = size.saturating_sub(1); size = length of buf
+    W = 'core::window::Window'
+    ctors = []
+    for fp in ('core::window::Window::<T>::new', 'core::window::Window::<T>::from_parts', 'core::window::Window::<T>::empty'):
+        gb = f.generic_body(fp)
+        if gb is None:
+            raise Broken('anchor %s missing' % fp)
+        ctors.append((fp.rsplit('::', 1)[-1], Body(gb)))
+    nlit = 0
+    for name, b in ctors:
+        for fields, line in _agg_fields(b, W):
+            nlit += 1
+            key = 'Window|%s' % name
+            r.inst(key)
+            if not all(k in fields for k in ('size', 's_1', 'buf', 'index')):
+                r.violate(key + '|fields', 'Window literal lacks expected fields', b.file, line)
+                continue
+            S = fields['size']
+            s1 = _subst(fields['s_1'], S, 'L')
+            cs, c1 = _canon(S), _canon(fields['s_1'])
+            ok = False
+            if s1[0] == 'call' and s1[1].endswith('::saturating_sub') and s1[2][0] == 'L' and s1[2][1][0] == 'const' and s1[2][1][2] == 1:
+                ok = True
+            if cs[0] == 'const' and c1[0] == 'const' and c1[2] == max(cs[2] - 1, 0):
+                ok = True
+            if not ok:
+                r.violate(key + '|s_1', 'Window::%s sets s_1 to %s, which is not size.saturating_sub(1) for size = %s' % (name, tree_str(fields['s_1'])[:70], tree_str(S)[:40]), b.file, line)
+            # buffer length = size
+            bt = _subst(fields['buf'], S, 'L')
+            bl = None
+            def find_len(x):
+                nonlocal bl
+                if isinstance(x, tuple):
+                    if x and x[0] == 'call' and x[1] == 'std::vec::from_elem' and len(x[2]) == 2:
+                        bl = x[2][1]
+                    if x and x[0] == 'call' and x[1].endswith('Vec::<T>::new'):
+                        bl = ('const', 'usize', 0)
+                    for y in x:
+                        find_len(y)
+            find_len(bt)
+            if bl is not None:
+                if not (bl == 'L' or (bl[0] == 'const' and cs[0] == 'const' and bl[2] == cs[2])):
+                    r.violate(key + '|buf-len', 'Window::%s allocates a buffer of length %s but records size %s' % (name, tree_str(bl)[:40], tree_str(S)[:40]), b.file, line)
+            else:
+                # buffer handed in: size must be its length
+                ls = _canon(S)
+                bb = _canon(fields['buf'])
+                if not (ls[0] == 'call' and ls[1].endswith('::len') and _canon(ls[2][0]) == bb or any(isinstance(x, tuple) and x and x[0] == 'call' and x[1].endswith('::len') for x in walk_tree(S))):
+                    r.violate(key + '|size-not-len', 'Window::%s takes a buffer but size (%s) is not its length' % (name, tree_str(S)[:50]), b.file, line)
+            r.sample({'constructor': 'Window::' + name, 'size': tree_str(S)[:40], 's_1': tree_str(fields['s_1'])[:50]})
+    r.floor('Window literals', 3, nlit)
+    # ---- SMM: half, half_m1 as functions of the window length; slice sorted
+    SM = 'methods::smm::SMM'
+    smm_ctors = []
+    for i in m.method_impls:
+        if m.adt_path_of_impl(i) == SM:
+            smm_ctors.append(('new', m.body(m.impl_fn_path(i, 'new'), prefer_mono=False), 'param'))
+    for i in f.impls:
+        if (i.get('trait_crate') or '').startswith('serde') and i['trait_name'] == 'Deserialize' and not i['derived'] and i['self_tyj'].get('def') == SM:
+            smm_ctors.append(('deserialize', m.body(m.impl_fn_path(i, 'deserialize'), prefer_mono=False), 'len'))
+    canon_forms = {}
+    for name, b, mode in smm_ctors:
+        lits = _agg_fields(b, SM)
+        key = 'SMM|%s' % name
+        r.inst(key)
+        if len(lits) != 1:
+            r.violate(key + '|literal', 'expected one SMM literal in %s' % name, b.file, b.line)
+            continue
+        fields, line = lits[0]
+        # the length expression: the size handed to Window::new (new) / window.len() (deserialize)
+        L = None
+        if mode == 'param':
+            w = fields['window']
+            for x in walk_tree(w):
+                if x[0] == 'call' and x[4].endswith('Window::<T>::new') or (x[0] == 'call' and 'Window' in x[4] and x[4].endswith('::new')):
+                    L = x[2][0]
+        else:
+            for x in walk_tree(fields['half']):
+                if x[0] == 'call' and x[4].endswith('::len'):
+                    L = x
+        if L is None:
+            r.violate(key + '|no-length', 'cannot identify the window length expression in SMM::%s' % name, b.file, line)
+            continue
+        canon_forms[name] = {k: _subst(fields[k], L, 'L') for k in ('half', 'half_m1')}
+        if mode == 'len':
+            # slice must be sorted before Ok: a sort call on the path
+            sorts = [t for bi, t in b.calls() if (t['callee'].get('name') or '').startswith('sort')]
+            if not sorts:
+                r.violate(key + '|slice-not-sorted', 'SMM::deserialize rebuilds the sorted slice without sorting it', b.file, b.line)
+    if 'new' in canon_forms and 'deserialize' in canon_forms:
+        for k in ('half', 'half_m1'):
+            r.inst('SMM|%s' % k)
+            a, c = canon_forms['new'][k], canon_forms['deserialize'][k]
+            if a != c:
+                r.violate('SMM|%s|constructors-differ' % k, 'SMM::new computes %s as %s but Deserialize recomputes it as %s (L = window length)' % (
+                    k, tree_str(a)[:70], tree_str(c)[:70]), smm_ctors[1][1].file, smm_ctors[1][1].line)
+            else:
+                r.sample({'type': 'SMM', 'field': k, 'as function of L': tree_str(a)[:80]})
+    else:
+        raise Broken('SMM constructors not found')
+    return r
